@@ -54,7 +54,7 @@ type decoder struct {
 	codec   string // binary | json | rlp
 	limKind int
 	fixed   int
-	seed    func(n int64) []byte               // a valid encoding
+	seed    func(n int64) []byte                 // a valid encoding
 	dec     func(in []byte, lmt int) (err error) // the decode under test
 }
 
@@ -195,20 +195,21 @@ var ladder = [][]byte{
 	{0x02, 0xff, 0xff},                                     // 64 Ki
 	{0x03, 0x10, 0x00, 0x01},                               // 1 Mi + 1
 	{0x03, 0xff, 0xff, 0xff},                               // 16 Mi
+	{0x04, 0x08, 0x00, 0x00, 0x00},                         // 128 Mi: above the bound of the largest caller limit (1 MiB), still allocatable
 	{0x04, 0x40, 0x00, 0x00, 0x00},                         // 1 Gi
 	{0x04, 0xff, 0xff, 0xff, 0xff},                         // 4 Gi
 	{0x06, 0x01, 0x00, 0x00, 0x00, 0x00, 0x00},             // 2^40
 	{0x08, 0x00, 0x00, 0x00, 0x01, 0x00, 0x00, 0x00, 0x00}, // 2^32, non-minimal
 	{0x08, 0x7f, 0xff, 0xff, 0xff, 0xff, 0xff, 0xff, 0xff}, // MaxInt64
 }
-var headLadder = [][]byte{ladder[0], ladder[2], ladder[4], ladder[7]}
+var headLadder = [][]byte{ladder[0], ladder[2], ladder[3], ladder[5], ladder[8]}
 
 // other length / type-prefix patterns, each an independent mutant
 var bombs = [][]byte{
-	{0x08, 0x80, 0x00, 0x00, 0x00, 0x00, 0x00, 0x00, 0x00},       // MinInt64 as unsigned
-	{0xf8, 0x7f, 0xff, 0xff, 0xff, 0xff, 0xff, 0xff, 0xff},       // -MaxInt64
-	{0xf1, 0x01},                                                 // -1
-	{0xf0},                                                       // negative zero
+	{0x08, 0x80, 0x00, 0x00, 0x00, 0x00, 0x00, 0x00, 0x00}, // MinInt64 as unsigned
+	{0xf8, 0x7f, 0xff, 0xff, 0xff, 0xff, 0xff, 0xff, 0xff}, // -MaxInt64
+	{0xf1, 0x01}, // -1
+	{0xf0},       // negative zero
 	{0x09, 0x01, 0x01, 0x01, 0x01, 0x01, 0x01, 0x01, 0x01, 0x01}, // size byte 9
 }
 var rlpBombs = [][]byte{
@@ -480,14 +481,14 @@ type robustViol struct {
 }
 
 type groupRec struct {
-	Type     string            `json:"type"` // "group" | "done"
-	Group    int64             `json:"group"`
-	Counters map[string]int64  `json:"counters,omitempty"`
+	Type     string             `json:"type"` // "group" | "done"
+	Group    int64              `json:"group"`
+	Counters map[string]int64   `json:"counters,omitempty"`
 	MaxRatio map[string]float64 `json:"max_ratio,omitempty"` // per decoder: max over inputs of allocated bytes / allowed bytes
-	Viols    []robustViol      `json:"viols,omitempty"`
-	Decoder  string            `json:"decoder,omitempty"`
-	Millis   int64             `json:"ms,omitempty"` // informational only
-	Units    int               `json:"units,omitempty"`
+	Viols    []robustViol       `json:"viols,omitempty"`
+	Decoder  string             `json:"decoder,omitempty"`
+	Millis   int64              `json:"ms,omitempty"` // informational only
+	Units    int                `json:"units,omitempty"`
 }
 
 const hdrLen = 160
@@ -748,14 +749,14 @@ func runRobust(nshards int) {
 	maxRatio := map[string]float64{}
 	msByDecoder := map[string]int64{}
 	type res struct {
-		recs   []groupRec
-		deaths []map[string]interface{}
-		incon  string
+		recs                   []groupRec
+		deaths                 []map[string]interface{}
+		incon                  string
 		restarts, unattributed int
-		ndeaths  int
-		abandoned int
-		cutGroups []int64
-		deathsBy map[string]int
+		ndeaths                int
+		abandoned              int
+		cutGroups              []int64
+		deathsBy               map[string]int
 	}
 	results := make([]res, nshards)
 	wall := time.Duration(lib.Pick(30, 150)) * time.Minute // safety net only: a child needs well under a minute (quick) / 10 minutes (thorough) of CPU
